@@ -156,3 +156,12 @@ package schema
 //@   in schema.(*Schema).ParseCheckConstraints
 //@   min-sites 2
 //@   assert rejoined-with-the-comma-it-was-split-on: arg1 == "," [C20]
+
+//@ # ---------- C03: a serialized JSON column is decoded into a fresh value ----------
+//@ # Decoding straight into the destination would merge with what a reused record already holds (map keys, omitted
+//@ # members): the loaded value would not be the stored one.
+//@ site json-decoded-into-a-fresh-value
+//@   match call reflect.New
+//@   in schema.(JSONSerializer).Scan
+//@   min-sites 1
+//@   assert of-the-fields-type: arg0 == field.FieldType [C03]
